@@ -305,7 +305,7 @@ func (e *Engine) preludeFull() string {
 (assert (forall ((s Str) (j Int) (k Int)) (! (=> (and (<= 0 j) (<= j k)) (<= (nlp s j) (nlp s k))) :pattern ((nlp s j) (nlp s k)))))
 (assert (forall ((s Str)) (! (>= (qmarks s) 0) :pattern ((qmarks s)))))
 (assert (forall ((a Str) (b Str)) (! (= (qmarks (scat a b)) (+ (qmarks a) (qmarks b))) :pattern ((scat a b)))))
-(assert (forall ((s Str)) (! (>= (slen s) 0) :pattern ((slen s)))))
+(assert (forall ((s Str)) (! (and (>= (slen s) 0) (<= (slen s) 1099511627776)) :pattern ((slen s)))))
 (assert (forall ((s Str)) (! (=> (= (slen s) 0) (= s str_empty)) :pattern ((slen s)))))
 (assert (forall ((a Str) (b Str)) (! (= (slen (scat a b)) (+ (slen a) (slen b))) :pattern ((scat a b)))))
 (assert (forall ((a Str)) (! (= (scat a str_empty) a) :pattern ((scat a str_empty)))))
